@@ -168,7 +168,7 @@ def execBody : Nat → (maxOps : Nat) → State → Obj → Bool → State × Re
       | [] => psErrS s "syntaxerror"
       | a :: ps =>
         let b := s.vm.stack.length
-        if b < a then (s, .err (.panic "makeslice: len out of range"))
+        if b < a then psErrS { s with procStart := ps } "syntaxerror"
         else
           let body := (s.vm.stack.take (b - a)).reverse
           let (v, r) := s.vm.alloc (.objs body.toArray)
@@ -409,7 +409,7 @@ def scanRun : Nat → (maxOps : Nat) → State → State × Res
         | .ok head =>
           if head == [37, 33] then ({ s1 with checkStart := false }, none)
           else
-            match s1.scanner.err with
+            match (if head.length < 2 then s1.scanner.err else none) with
             | none | some .eof => (s1, some .noPS)
             | some e => (s1, some e)
         | .error e => (s1, some e)
